@@ -60,6 +60,13 @@ def scan_trusted(world_text: str, units: dict) -> list[str]:
     return sorted(f"{k}: {n}" for k, n, _ in items)
 
 
+EXTRACTION_REASONS = ("anchor lost", "rustc error in generated world", "verus rejected the world", "verus produced no verification results")
+
+
+def is_extraction_reason(reason: str) -> bool:
+    return any((reason or "").startswith(x) for x in EXTRACTION_REASONS)
+
+
 class Run:
     def __init__(self, prop: str, tier: str, seed: int):
         self.prop, self.tier, self.seed = prop, tier, seed
@@ -70,6 +77,8 @@ class Run:
         self.violations: list[dict] = []
         self.known: list[str] = []
         self.undecided: list[str] = []
+        self.standin_candidates: list = []
+        self.standins: list[str] = []
         self.notes: list[str] = []
         self.unit_reports: list[dict] = []
         self.trusted: set[str] = set()
@@ -154,7 +163,8 @@ class Run:
                 ok = r.status == "failed"
                 self.unit_reports.append({"unit": n, "canary": c["id"], "must_fail": True, "status": r.status,
                                           "failed_clauses": sorted({f.clause or f.kind for f in r.failures})})
-                if not ok:
+                if not ok and not (r.status == "undecided" and is_extraction_reason(r.reason)):
+                    # (when the contract cannot be attached to this tree at all, the unit itself is reported; its canary says nothing more)
                     self.undecided.append(f"canary {c['id']} on {n} did not fail (status {r.status}: {r.reason}) — vacuity guard")
                 continue
             self.account_verus(n, rs)
@@ -212,8 +222,47 @@ class Run:
                 self.candidate_violation(n, failed, r)
         else:
             rep["reason"] = r.reason
-            self.undecided.append(f"{n}: {r.reason}")
+            if is_extraction_reason(r.reason):
+                # the contract could not be attached to (or the verifier cannot take) this tree's text of the function: the function is
+                # outside the verifier's reach on this tree; a bounded check of the function may stand in (resolved after the bounded groups ran)
+                self.obligations += len(clauses)
+                rep["obligations_not_discharged"] = len(clauses)
+                self.standin_candidates.append((n, r.reason, rep))
+            else:
+                self.undecided.append(f"{n}: {r.reason}")
         self.unit_reports.append(rep)
+
+    def resolve_standins(self):
+        """a unit whose contract cannot be attached to this tree is decided by a BOUNDED check of that function, if one exists, ran on
+        non-trivial inputs and found nothing that is not a recorded finding; labelled bounded, never counted as discharged"""
+        from . import native, findings
+        for n, reason, rep in self.standin_candidates:
+            groups = native.CEX_GROUPS.get(n) or [g for g, _ in native.GROUPS.get(self.prop, [])] or ["e2e"]
+            res = native.run_groups(self, groups)
+            why = None
+            if not res:
+                why = "the bounded back end is not available"
+            else:
+                for r in res:
+                    if r.get("unavailable"):
+                        why = f"bounded group {r['group']} does not compile against this tree"
+                    elif not r["evaluations"]:
+                        why = f"bounded group {r['group']} evaluated nothing"
+                    else:
+                        for f in r["failures"]:
+                            v = {"unit": f["obligation"].rsplit(".", 1)[0], "obligations": [f["obligation"]], "features": f["features"]}
+                            if not findings.match_open(None, v):
+                                why = f"bounded group {r['group']} reports {f['obligation']} (reported as a violation by the property it belongs to)"
+                                break
+                    if why:
+                        break
+            if why:
+                self.undecided.append(f"{n}: {reason}; no bounded stand-in: {why}")
+                continue
+            n_eval = sum(r["evaluations"] for r in res)
+            rep["status"] = "bounded-stand-in"
+            rep["stand_in"] = {"groups": groups, "evaluations": n_eval, "label": "bounded: never counted as discharged"}
+            self.standins.append(f"unit={n} contract not attachable to this tree ({reason[:140]}); bounded check of the function stands in: groups {','.join(groups)}, {n_eval} evaluations")
 
     def candidate_violation(self, n: str, failed: list[str], r: VerusResult):
         """a clause that is discharged on the unchanged tree now fails: look for a failing input"""
@@ -257,6 +306,7 @@ class Run:
             "units": self.unit_reports,
             "samples": self.samples[:12],
             "undecided": self.undecided,
+            "bounded_stand_ins": self.standins,
             "known_findings_reported": self.known,
             "exhaustive": False,
         }
@@ -275,11 +325,13 @@ class Run:
         for v in new_violations:
             tail = "" if v.get("cex") else " no-failing-input-found"
             print(f"VIOLATION property={self.prop} replay={v['replay']}{tail}")
+        for u in self.standins:
+            print(f"STAND-IN property={self.prop} {u}")
         for u in self.undecided:
             print(f"UNDECIDED property={self.prop} {u}", file=sys.stderr)
         print(f"{self.prop} {self.tier}: obligations={self.obligations} discharged={self.discharged} "
               f"bounded_evaluations={self.bounded.get('evaluations', 0)} violations={len(new_violations)} "
-              f"known={len(self.known)} undecided={len(self.undecided)} wall={wall:.1f}s")
+              f"known={len(self.known)} undecided={len(self.undecided)} stand_ins={len(self.standins)} wall={wall:.1f}s")
         if new_violations:
             return 1
         if self.undecided:
